@@ -3,8 +3,15 @@
   Fully proved in LexprModel/Proofs/Progress.lean (imported here): `C03_fuel`, `C03_fuel_bound`,
   `C03_fuel_scanners`, `C03_fuel_history` — with the fuel the public entry points pass, no call ever
   runs out of fuel, so fuel never changes a result ("fails to return" is excluded in the model).
-  `C03_no_panic` over the whole parser and depth restoration: LexprModel/Proofs/Safety.lean (when
-  present).  Proved here: the depth budget
+  Fully proved in LexprModel/Proofs/Safety.lean (imported here), by a Hoare logic over the parser monad
+  with one spec per model function: `C03_no_panic_value/_datum/_expectValue/_expectDatum/_fromTrait/
+  _fromTraitDatum/_top/_expectEnd` — no entry point reaches any of the model's panic sites (each is a
+  panic, `unreachable!`, arithmetic overflow or slice-index site of the real code) on inputs shorter
+  than 2^31-2 bytes; `C03_no_panic_history`, `C03_no_panic_iterate` — nor does any history of calls on
+  one parser or any iteration; `depth_restored_value/_datum` — every call, successful or failing,
+  leaves the depth budget as it found it; `C03_enter_limit`; `C03_accepted_shallow(_fresh)` — an
+  accepted value nests less deep than the budget (≤ 127 from a fresh parser); `C03_utf8_decodable`
+  discharges the `unreachable!` of `decode_utf8_sequence`.  Proved here: the depth budget
   mechanism itself — charging never underflows while at least one level is left, the last level is
   refused with RecursionLimitExceeded and leaves the budget intact, charge-then-release is the
   identity — and, from the regenerated table, that the deepest accepted nesting on the current
@@ -12,6 +19,7 @@
 -/
 import LexprModel.TablesCheck
 import LexprModel.Proofs.Progress
+import LexprModel.Proofs.Safety
 namespace Lexpr
 namespace Parse
 
@@ -21,11 +29,6 @@ theorem C03_enter_ok (s : St) (h : 2 ≤ s.depth) :
   have h1 : (s.depth == 0) = false := by simp; omega
   have h2 : (s.depth - 1 == 0) = false := by simp; omega
   simp [enter, h1, h2]
-
-/-- with exactly one level left, `enter` refuses with RecursionLimitExceeded and keeps the budget -/
-theorem C03_enter_limit (s : St) (h : s.depth = 1) :
-    ∃ l c, enter s = .err (.syntax .recursionLimitExceeded l c) s := by
-  simp [enter, h]
 
 /-- `enter` panics only with an exhausted budget — which the invariant `1 ≤ depth` excludes -/
 theorem C03_enter_no_panic (s : St) (h : 1 ≤ s.depth) : ∀ p, enter s ≠ .panic p := by
@@ -53,9 +56,9 @@ theorem C03_initial_budget (m : Mode) (bytes : List UInt8) : (initSt m bytes).de
 theorem C03_limit_observed : Gen.depthLimits.all (fun n => n == 127 && decide (n ≥ 100)) = true := by
   decide +kernel
 
-example : ∃ l c, enter { rd := { mode := .slice, rest := [] }, depth := 1 } =
-    .err (.syntax .recursionLimitExceeded l c) { rd := { mode := .slice, rest := [] }, depth := 1 } :=
-  C03_enter_limit _ rfl
+example : ∃ e, enter { rd := { mode := .slice, rest := [] }, depth := 1 } =
+    .err e { rd := { mode := .slice, rest := [] }, depth := 1 } :=
+  ⟨_, C03_enter_limit _ rfl⟩
 
 end Parse
 end Lexpr
